@@ -305,6 +305,23 @@ Definition consume_error (g : graph) (F : list node) (r : node) : bool :=
 Definition router_pids (g : graph) (n : node) : list pid :=
   omap (fun w => match w with Cap p => Some p | _ => None end) (succs (g_edges g) n).
 
+(* connector/{logs,traces,metrics}_router.go, xconnector profiles router, connector/internal BaseRouter.Consumer:
+   a connector may ask its router for the consumer of chosen pipelines.  No id: error "missing consumers"; an id
+   that is not offered: error "missing consumer"; otherwise a fan-out over the consumers of exactly the requested
+   ids, one entry per requested id (a repeated id is served once per repetition). *)
+Definition router_consumer (offered ids : list pid) : option (list pid) :=
+  match ids with
+  | [] => None
+  | _ => if forallb (fun p => existsb (pid_eqb p) offered) ids then Some ids else None
+  end.
+
+(* what arrives when a datum is sent into Consumer(ids...) of the router of connector instance n *)
+Definition route_deliver (g : graph) (n : node) (ids : list pid) : option (list (node * list node)) :=
+  match router_consumer (router_pids g n) ids with
+  | Some l => Some (flat_map (fun p => deliver g (Cap p)) l)
+  | None => None
+  end.
+
 Definition is_connector (n : node) : bool := match n with Conn _ _ _ => true | _ => false end.
 
 (* ---- the reported cycle -------------------------------------------------------------------- *)
